@@ -11,7 +11,7 @@ func init() {
 			"(C03-a) every NetworkPolicy and admin-policy field that the list path reads is read on the eval path too (field coverage over both call graphs), and endpoint roles agree (From meets the source, To the destination, ports resolved on the destination) - the role rules of C01 run here as well; " +
 			"(C03-b) in the eval-side port matchers a positive answer inside the port loop depends on the entry's protocol and port; " +
 			"(C03-c) the admin policies are sorted whenever an exported entry returns (E4b, covers engines filled by InsertObject), and a missing Namespace object is resolved on the eval path; " +
-			"(C03-d) eval and list apply the same always-allowed predicates before cache and policies: the guard of each is read off the path conditions of the exits that return the top verdict before any cache or policy call (wrappers of predicates inlined, peers written by role), each predicate alone is sufficient, and no cache / policy call can run while one of them holds; " +
+			"(C03-peer-first) wherever a NetworkPolicy rule's ports are examined for a concrete destination, ruleSelectsPeer has answered true before (the port step is partial: it fails on a named port for an IP destination, so the order of the conjunction matters); (C03-d) eval and list apply the same always-allowed predicates before cache and policies: the guard of each is read off the path conditions of the exits that return the top verdict before any cache or policy call (wrappers of predicates inlined, peers written by role), each predicate alone is sufficient, and no cache / policy call can run while one of them holds; " +
 			"(C03-first) eval loops go on to the next policy/rule only on NotCaptured (first match wins, as the list side's partition discipline C02-b). " +
 			"NOT decided: equality of the two computations on any actual input."
 		rules.FieldCoverage(p, r, "C03-a", "eval", rules.EvalEntries(p), append(append([]string{}, rules.FieldsNetpol...), rules.FieldsAdmin...), "list reads it, so eval must too")
@@ -21,6 +21,7 @@ func init() {
 		rules.SortedTypestate(p, r)
 		rules.NamespaceResolutionOnEval(p, r, "C03-c")
 		rules.AlwaysAllowedParity(p, r, "C03-d")
+		rules.NetpolPeerBeforePorts(p, r, "C03-peer-first")
 		rules.FirstMatchLoops(p, r)
 		r.Floor("C03-a", 50)
 		rules.ListEvalSiblingConditions(p, r, "C03-e")
